@@ -282,7 +282,7 @@ impl Property for C17 {
     }
     fn budget(&self, tier: Tier) -> Budget {
         match tier {
-            Tier::Quick => Budget { cases: 400, shards: 16, min_len: 6, max_len: 12 },
+            Tier::Quick => Budget { cases: 800, shards: 16, min_len: 6, max_len: 12 },
             Tier::Thorough => Budget { cases: 8000, shards: 16, min_len: 6, max_len: 12 },
         }
     }
